@@ -99,6 +99,52 @@ def run(report, p):
                 okf = all(norm(i).replace(" ", "") in (f"{norm(gen.target)}.previous_pathisnotNone", f"{norm(gen.target)}.previous_path!=None", f"{norm(gen.target)}.previous_path") for i in gen.ifs)
                 r1.check(okf, f, c, "records are left out of the rename map by a condition other than 'has no previous path'", construct="rename map filter")
 
+    # the three path spellings must agree: elements of the expected set, keys and values of the rename map are built by the same expression
+    # over (root, record path) - otherwise a lookup of an expected path in the rename map misses for roots that are not in normal form
+    hl_set = p.funcs.get("ascmhl.hashlist.MHLHashList.set_of_file_paths")
+    hl_ren = p.funcs.get("ascmhl.hashlist.MHLHashList.renamed_path_with_previous_path")
+    if hl_set is None or hl_ren is None:
+        raise AnalysisError("MHLHashList.set_of_file_paths / renamed_path_with_previous_path not found")
+
+    def canon_expr(f, e, loop_var, field_from=None):
+        t = ast.parse(norm(e), mode="eval").body
+        for n in ast.walk(t):
+            if isinstance(n, ast.Name) and n.id == loop_var:
+                n.id = "REC"
+            elif isinstance(n, ast.Name) and n.id in f.params[1:2]:
+                n.id = "ROOT"
+            if field_from and isinstance(n, ast.Attribute) and n.attr == field_from:
+                n.attr = "path"
+        return norm(t)
+
+    def loop_var_of(f, node):
+        for a in _anc(node):
+            if isinstance(a, ast.For):
+                return norm(a.target)
+            if isinstance(a, (ast.SetComp, ast.DictComp, ast.ListComp, ast.GeneratorExp)):
+                return norm(a.generators[0].target)
+        return None
+
+    elems = []
+    for n in walk_no_nested(hl_set.node):
+        if isinstance(n, ast.Call) and isinstance(n.func, ast.Attribute) and n.func.attr == "add" and n.args:
+            elems.append((n.args[0], loop_var_of(hl_set, n)))
+        if isinstance(n, ast.SetComp):
+            elems.append((n.elt, norm(n.generators[0].target)))
+    pairs2 = []
+    for n in walk_no_nested(hl_ren.node):
+        if isinstance(n, ast.Assign) and isinstance(n.targets[0], ast.Subscript):
+            pairs2.append((n.targets[0].slice, n.value, loop_var_of(hl_ren, n)))
+        if isinstance(n, ast.DictComp):
+            pairs2.append((n.key, n.value, norm(n.generators[0].target)))
+    r1.instance(hl_ren, hl_ren.node, "path spelling: expected set vs rename map")
+    if len(elems) != 1 or len(pairs2) != 1 or elems[0][1] is None or pairs2[0][2] is None:
+        raise AnalysisError("expected-set element / rename-map entry expressions not found in their single form")
+    e_txt = canon_expr(hl_set, elems[0][0], elems[0][1])
+    k_txt = canon_expr(hl_ren, pairs2[0][0], pairs2[0][2], "previous_path")
+    v_txt = canon_expr(hl_ren, pairs2[0][1], pairs2[0][2])
+    r1.check(e_txt == k_txt == v_txt, hl_ren, pairs2[0][0], f"expected paths are spelled `{e_txt}` but rename-map keys `{k_txt}` / values `{v_txt}`: for a root that is not in normal form ('.', './x', 'a/../x') the rewrite of the expected set misses and renamed files are reported missing", construct="path spelling differs between expected set and rename map")
+
     # ------------------------------------------------------------------ R17.2 (sibling rewrite; shared with C03 R3.1)
     r2 = report.rule("R17.2", "one rewrite, three commands: create, verify and diff map the expected set through the same {p -> renamed[p] if renamed else p} comprehension over history.renamed_path_with_previous_path()", 3)
     tfm = tfm_func(p)
